@@ -180,6 +180,10 @@ impl<'tcx> M<'tcx> {
                 _ => t,
             }
         };
+        // cold never-returning failure functions of core (slice length mismatch, index out of range, ...): a panic outcome
+        if n.ends_with("len_mismatch_fail") || n.ends_with("slice_index_fail") || n.ends_with("slice_start_index_len_fail") || n.ends_with("slice_end_index_len_fail") || n.ends_with("slice_index_order_fail") {
+            return Err(Stop::Panic(format!("{} (core failure path)", n)));
+        }
         match n {
             // ---- panics
             "std::panicking::panic" | "std::panicking::panic_fmt" | "std::panicking::panic_nounwind" | "std::panicking::panic_explicit" | "std::panicking::assert_failed" | "std::panicking::panic_display" | "std::panicking::panic_str_2015" | "std::rt::begin_panic" | "std::rt::panic_fmt" | "std::panicking::begin_panic" | "std::panicking::unreachable_display" | "std::panicking::panic_bounds_check" | "std::option::unwrap_failed" | "std::option::expect_failed" | "std::result::unwrap_failed" | "std::panicking::panic_const::panic_const_div_by_zero" => {
